@@ -489,7 +489,64 @@ def rule_r10(chk, rid="C05-R10"):
                "absent / None keywords inherit", m.loc(f), sure=True)
 
 
+def rule_r12(chk, rid="C05-R12"):
+    chk.rule(rid, "a steady state is reported as found only when the solver says so AND the residual norm is below the tolerance: scipy_root "
+             "evaluated finitely on the four combinations of (solver flag, norm below tolerance) - a stationary point of the squared residual "
+             "that is not a root must not be stored as a steady state", floor=1, shape_independent=True)
+    from .. import fin
+    m = chk.repo.mod("irispie.steadiers.solver_dispatcher")
+    f = m.func("scipy_root")
+    chk.saw(m, "scipy_root")
+    bad = None
+    try:
+        for flag in (False, True):
+            for small in (False, True):
+                result = fin.FinObj(x="X", fun="FUN", success=flag, status=1 if flag else 0, message="")
+                ev_ = fin.FinObj(eval="EVAL", iter_printer=fin.FinObj(print_footer=lambda *a_, **k_: None))
+                funcs = {"_sp.optimize.root": lambda *a_, **k_: result, "_sp.linalg.norm": lambda *a_, **k_: (1 if small else 3), "_np.linalg.norm": lambda *a_, **k_: (1 if small else 3)}
+                out = fin.run_function(f, dict(zip(params(f), (ev_, "GUESS", {"method": "lm", "tol": 2, "norm_order": 2}))), funcs)
+                success = out[1]
+                if bool(success) != (flag and small) and bad is None:
+                    bad = (f"solver flag {flag}, residual norm {'below' if small else 'above'} the tolerance: success is reported as {bool(success)}, "
+                           f"expected {flag and small}")
+    except (fin.NotFinite, fin.Raised, TypeError, AttributeError, KeyError, IndexError) as ex:
+        chk.undecided(rid, "steadiers.solver_dispatcher.scipy_root[success]", f"not finitely evaluable: {type(ex).__name__}: {ex}", m.loc(f))
+        return
+    chk.ob(rid, "steadiers.solver_dispatcher.scipy_root[success]", bad is None, bad or "success = solver flag and residual norm below the tolerance (4 combinations)", m.loc(f), sure=True)
+
+
+def rule_r13(chk, rid="C05-R13"):
+    chk.rule(rid, "SteadyPlan.fix / unfix act on the level and, in a non-flat model (a change register exists, whatever is switched on in it), on "
+             "the change as well: evaluated finitely on plans with no change register, with one that is all off, and with one partly on",
+             floor=2, shape_independent=True)
+    from .. import fin
+    m = chk.repo.mod("irispie.plans.steady_plans")
+    meths = m.methods("SteadyPlan")
+    for name, lev, chg in (("fix", "fix_level", "fix_change"), ("unfix", "unfix_level", "unfix_change")):
+        f = meths.get(name)
+        if f is None:
+            raise AnalysisError(f"anchor vanished: SteadyPlan.{name}")
+        chk.saw(m, f"SteadyPlan.{name}")
+        bad = None
+        try:
+            for label, reg in (("flat model (no change register)", {}), ("non-flat model, nothing fixed yet", {"x": False, "y": False}), ("non-flat model, y already fixed", {"x": False, "y": True})):
+                log = []
+                me = fin.FinObj(_fixed_change_register=dict(reg), _fixed_level_register={"x": False, "y": False},
+                                any_in_register=lambda nm, *a_, _r=reg: any(_r.values()) if "change" in nm else False,
+                                **{lev: lambda *a_, **k_: log.append("level"), chg: lambda *a_, **k_: log.append("change")})
+                fin.run_function(f, {params(f)[0]: me, (f.args.vararg.arg if f.args.vararg else "args"): ("x",), (f.args.kwarg.arg if f.args.kwarg else "kwargs"): {}})
+                want = ["level"] + (["change"] if reg else [])
+                if sorted(log) != sorted(want) and bad is None:
+                    bad = f"{label}: {name}('x') acts on {log or 'nothing'}, expected {want}"
+        except (fin.NotFinite, fin.Raised, TypeError, AttributeError, KeyError) as ex:
+            chk.undecided(rid, f"plans.steady_plans.SteadyPlan.{name}", f"not finitely evaluable: {type(ex).__name__}: {ex}", m.loc(f))
+            continue
+        chk.ob(rid, f"plans.steady_plans.SteadyPlan.{name}", bad is None, bad or "level always, change whenever the model has a change register", m.loc(f), sure=True)
+
+
 def run(chk):
+    chk.guard(rule_r13, chk)
+    chk.guard(rule_r12, chk)
     chk.guard(rule_r10, chk)
     chk.guard(rule_r1, chk)
     chk.guard(rule_r7, chk)
